@@ -191,7 +191,9 @@ def runEvent (st : St) (ev : String) : Option (St × List Op × Sent) :=
       some ({ st with srv := srv, fs := fs, mid := st.mid + 1 }, ops, st.sent) else none
   | "d", [some i] => if i < nRes then
       let (srv, fs, ops) := evDelete st.srv st.fs (nameOf i)
-      some ({ st with srv := srv, fs := fs, mid := st.mid + 1 }, ops, st.sent) else none
+      -- a resource created later under the same name is a new resource: the record of sent values starts afresh
+      some ({ st with srv := srv, fs := fs, mid := st.mid + 1 }, ops,
+            st.sent.map fun (j, l) => if j = i then (j, []) else (j, l)) else none
   | "a", [some c, some i, some v] => if c < nCli ∧ i < nRes ∧ v < 10 then
       let pkt := mkReq 1 st.mid [UInt8.ofNat c, UInt8.ofNat i, UInt8.ofNat v, 0xAA] (nameOf i) (some 0) []
       let (srv, fs, ops) := evObserve st.srv st.fs (nameOf i) c v (mkRec c pkt)
